@@ -66,6 +66,10 @@ def cases(tier, seed):
     for i in range(12 if tier == 'quick' else 40):
         out.append({'id': f'eightrunc-{i}', 'kind': 'eigh_trunc', 'sym': ['U1', 'Z2', 'dense'][i % 3], 'tier': tier, 'seed': seed * 15485863 + i,
                     'D_total': [1, 2, INF][i % 3], 'which': ['LM', 'LR', 'SR', 'SM'][(i // 3) % 4]})
+    # limits on eigenvalue selections: D_block and D_total together, tolerances switched off (-inf), every ordering
+    for i in range(24 if tier == 'quick' else 96):
+        out.append({'id': f'eighlimits-{i}', 'kind': 'eigh_limits', 'sym': ['U1', 'Z2', 'U1'][i % 3], 'tier': tier, 'seed': seed * 32452843 + i,
+                    'D_total': [1, 2, 3, INF][i % 4], 'D_block': [1, 2, INF][(i // 4) % 3], 'which': ['LM', 'LR', 'SR', 'SM'][(i // 2) % 4]})
     return out
 
 
@@ -260,6 +264,54 @@ def k_svd_trunc(ctx, spec):
     ctx.eq([(dense.conj(Fd) * Fd).sum()], [disc2], 'svd_trunc: || a - U_k S_k V_k ||^2 == sum of the discarded singular values squared')
     ctx.eq(reassemble(full, legs), A, 'svd: U S V == a')
     return {'a': describe(a), 'axes': axes, 'D_total': D_total, 'kept': lS0.D}
+
+
+def k_eigh_limits(ctx, spec):
+    """eigh_with_truncation with D_block and D_total (tolerances off: tol = tol_block = -inf, the documented way to truncate by dimension for
+    every `which`), checked WITHOUT truncation_mask as oracle: per sector the kept values are the first k_b of the sorted spectrum with
+    k_b <= D_block, the total number kept is min(D_total, sum_b min(D_block, n_b)) (nothing is discarded when no limit binds), and no
+    discarded value that survives its block limit outranks a kept one"""
+    import yastn
+    rng = rng_of(spec)
+    cfg = cat.make_config(spec['sym'])
+    symn = spec['sym']
+    leg = cat.rand_leg(rng, symn, nsect=(2,), dims=(1, 2))
+    if len(leg['t']) < 2 or sum(leg['D']) < 3:
+        leg = cat.rand_leg(rng, symn, nsect=(2,), dims=(2,))
+    s0 = rng.choice([1, -1])
+    tsb = {'sym': symn, 'fermionic': False, 's': [s0, -s0], 'legs': [leg, leg], 'n': list(cfg.sym.zero()) if cfg.sym.NSYM else [],
+           'blocks': None, 'dtype': 'real', 'isdiag': False}
+    b = cat.build(ctx, tsb, 'b', config=cfg)
+    h = b + b.H
+    which, D_total, D_block = spec['which'], spec['D_total'], spec['D_block']
+    ninf = -float('inf')
+    S0, U0 = yastn.linalg.eigh(h, axes=(0, 1), which=which)
+    # selections whose surviving values are ALL exactly zero are outside this statement: -inf * max|.| is nan there and the comparison with nan
+    # drops the (zero) values -- harmless for the factorisation; assumed away (the stub is a function: these are the values the call below uses)
+    for t in S0.get_legs(0).t:
+        for x in S0[t + t]:
+            ctx.assume(x != 0)         # (every eigenvalue non-zero: then max|.| of any non-empty selection is positive)
+    S, U = yastn.linalg.eigh_with_truncation(h, axes=(0, 1), which=which, D_total=D_total, D_block=D_block, tol=ninf, tol_block=ninf)
+    def weight(x):
+        w = abs(x) if which in ('SM', 'LM') else x
+        return -w if which in ('SM', 'SR') else w
+    full = {t: list(S0[t + t]) for t in S0.get_legs(0).t}
+    kept = {t: list(S[t + t]) for t in S.get_legs(0).t} if S.size else {}
+    surv = {t: min(D_block, len(v)) for t, v in full.items()}
+    expect_total = min(D_total, sum(surv.values()))
+    ctx.check(sum(len(v) for v in kept.values()) == expect_total, 'eigh_limits: number kept == min(D_total, sum over sectors of min(D_block, n_b))',
+              ({t: len(v) for t, v in kept.items()}, expect_total, spec['which'], D_block, D_total))
+    for t, v in kept.items():
+        ctx.check(t in full and len(v) <= surv[t], 'eigh_limits: D_block respected', (t, len(v)))
+        ctx.eq([weight(x) for x in v], [weight(x) for x in full[t][:len(v)]], 'eigh_limits: the kept values of a sector are (up to ties in weight) the first ones of its sorted spectrum')
+    for t, v in full.items():
+        kb = len(kept.get(t, []))
+        if kb < surv[t]:
+            d = v[kb]                 # best discarded value of this sector that survives the block limit
+            for t2, v2 in kept.items():
+                if v2:
+                    ctx.prove(weight(v2[-1]) >= weight(d), 'eigh_limits: no discarded value that survives its block limit outranks a kept value')
+    return {'which': which, 'D_total': D_total, 'D_block': D_block, 'kept': {str(t): len(v) for t, v in kept.items()}}
 
 
 def k_eigh_trunc(ctx, spec):
